@@ -94,5 +94,20 @@ def main(ctx, pid='C09'):
             ctx.violation('V', 'recorded grow-only history violates ' + rej[ev['id']][0],
                           case={'history': [e['act'] for e in evs[:k + 1]], 'objs_before': evs[k - 1]['objs'] if k else None},
                           expected=rej[ev['id']][1], actual={'objs': ev['objs'], 'broken': ev['broken'], 'outcome': ev['act'].get('outcome')}, clause=rej[ev['id']][0])
+    # ---- V (hierarchical): IndexHierarchyGO histories (append / extend at depth 2-3 with cache-materialising reads in between, indices built
+    # from the grown hierarchy) are the SFHier part of the specification; the same recorded histories are validated here by Trace_C05
+    if pid == 'C09':
+        from . import c05
+        hev = []
+        for i in range(60 if quick else 1500):
+            hev += c05.go_history(ctx, len(hev))
+        for k, ev in enumerate(hev):
+            ev['id'] = k
+        rejh = ctx.validate_events('Trace_C05', 'Trace.cfg', hev, chunk=500)
+        for ev in hev:
+            if ev['id'] in rejh:
+                ctx.violation('V', 'hierarchical grow-only history: recorded %s event violates %s' % (ev['kind'], rejh[ev['id']][0]), case={k: ev[k] for k in ev if k not in ('obs', 'id')},
+                              actual=ev.get('obs') or {'rows': ev.get('rows'), 'outcome': ev.get('outcome')}, clause=rejh[ev['id']][0], expected=rejh[ev['id']][1])
+        ctx.count('V_hierarchical_history_events', len(hev))
     ctx.sample({'leg': 'V', 'history': [e['act'] for e in events[:6]]})
-    return ctx.finish(rule='M: SFGo (required semantics) exhaustive for 3 labels, <=2 (thorough 3) live objects, <=3 labels each, with action properties AppendOnly / AllOrNothing / Isolation; R: TLC simulation behaviours (depth 9, 4 labels, <=4 objects) replayed on real FrameGO/IndexGO and 28 derivation routes; V: random histories of 8-30 calls (5 labels, <=9 objects) validated by Trace_Go; every step projects every live object incl. membership/lookup probes of all universe labels')
+    return ctx.finish(rule='M: SFGo (required semantics) exhaustive for 3 labels, <=2 (thorough 3) live objects, <=3 labels each, with action properties AppendOnly / AllOrNothing / Isolation; R: TLC simulation behaviours (depth 9, 4 labels, <=4 objects) replayed on real FrameGO/IndexGO and 28 derivation routes; V: random histories of 8-30 calls (5 labels, <=9 objects) validated by Trace_Go; every step projects every live object incl. membership/lookup probes of all universe labels, per-column dtypes and equals; plus IndexHierarchyGO histories (depth 2-3, reads in between, indices derived from the grown hierarchy) validated by Trace_C05')
